@@ -11,15 +11,22 @@ from checks.C24 import fs_agree
 '''
 
 LITS = ["", "a", "{{", "}}", "\\N{BULLET}", " ", "é", "\\n", "\\\\", "'", "%"]
-EXPRS = [("x", "x"), ("(+ x 1)", "(x + 1)"), ("(get xs 0)", "xs[0]"), ("s", "s"), ("(.upper s)", "s.upper()")]
+EXPRS = [("x", "x"), ("(+ x 1)", "(x + 1)"), ("(get xs 0)", "xs[0]"), ("s", "s"), ("(.upper s)", "s.upper()"),
+         # a nested f-string with its own field: the same text in Hy and Python, so '=' can be compared too
+         ("f\"<{s}>\"", "f\"<{s}>\""), ("f\"{x}{s !r}\"", "f\"{x}{s!r}\"")]
+SAME_TEXT = ("x", "s", "f\"<{s}>\"")   # expressions whose source text is identical in both languages ('=' prints it)
+EMPTY_SPEC = "\0"   # a colon followed by nothing: an empty format spec is not the same as no format spec
 CONVS = ["", "!s", "!r", "!a"]
 EQS = ["", " =", " = "]
-SPECS = ["", ">4", "{w}", ">{w}", "0{w}d", "{w}x", "{w}.{p}f", "*^{w}", "{w}{c}"]
+SPECS = ["", EMPTY_SPEC, ">4", "{w}", ">{w}", "0{w}d", "{w}x", "{w}.{p}f", "*^{w}", "{w}{c}"]
 
 
 def field(expr, conv, eq, spec):
     """-> (hy text, python text) of one replacement field"""
     h, p = expr
+    if spec == EMPTY_SPEC:
+        hy, py = field(expr, conv, eq, "Q")
+        return hy.replace(":Q}", ":}"), py.replace(":Q}", ":}")
     py_eq = " = " if (eq == " =" and (conv or spec)) else eq   # Hy needs whitespace before !conv / :spec, and '=' keeps it in its text
     sp = "" if eq.endswith(" ") else " "   # Hy needs whitespace between the form and !conv / :spec; '=' keeps trailing whitespace in its text
     hy = "{" + h + eq + ((sp + conv) if conv else "") + (((" " if conv or not eq.endswith(" ") else "") + ":" + spec) if spec else "") + "}"
@@ -33,10 +40,10 @@ def cases(tier):
     for expr in EXPRS:
         for conv in CONVS:
             for eq in EQS:
-                if eq and expr[0] not in ("x", "s"):
+                if eq and expr[0] not in SAME_TEXT:
                     continue  # '=' prints the source text, which differs between Hy and Python for compound expressions
                 for spec in SPECS:
-                    if expr[0] in ("s", "(.upper s)") and any(ch in spec for ch in "dxf") and not conv:
+                    if (expr[0] in ("s", "(.upper s)") or expr[0].startswith("f\"")) and any(ch in spec for ch in "dxf") and not conv:
                         continue
                     if conv in ("!s", "!r", "!a") and any(ch in spec for ch in "dxf0"):
                         continue  # numeric specs on a converted (string) value: ValueError in both; kept small
@@ -64,15 +71,25 @@ def render(parts, bracket=False):
     if bracket:
         # bracket f-strings take the text verbatim: no backslash escapes
         return "#[f[" + hy + "]f]", None
+    if 'f"' in py:
+        return 'f"' + hy + '"', "f\'\'\'" + py + "\'\'\'"   # nested f-string: outer triple quotes leave the inner text untouched
     return 'f"' + hy + '"', 'f"' + py.replace('"', '\\"') + '"'
 
 
 def fs_agree(prog, pycode, x, w, p, si, ci, why=None):
-    from vf import skel
+    from vf import skel, strsym
 
     if why is None and skel.EXPLAIN[0]:
         del skel.LAST_WHY[:]
         why = skel.LAST_WHY
+    # every argument is concrete here (the boxes fork explicitly): evaluate both sides outside CrossHair's tracer, whose
+    # own FORMAT_VALUE interception does not reproduce CPython for an empty format spec combined with a conversion
+    return strsym.untraced(_fs_agree, prog, pycode, x, w, p, si, ci, why)
+
+
+def _fs_agree(prog, pycode, x, w, p, si, ci, why):
+    from vf import skel
+
     if prog[0] != "ok":
         if why is not None:
             why.append("rejected: %r" % (prog[1:3],))
@@ -171,11 +188,12 @@ def spec(tier, seed):
         "grade": "R in the values (format() realises its argument: x boxed to -2..11, widths 0..4, precision 0..2, strings from a pool of 4); structure enumerated",
         "functions_encoded": ["hy.reader.hy_reader.HyReader.read_string / fstring parsing (concrete)", "hy.compiler.compile_fstring / compile_fcomponent (conversion, = debugging, nested spec)",
                               "hy.models.FString / FComponent"],
-        "bounds": "one field: expression in {name, call, subscript, string name, method call} x conversion {none,!s,!r,!a} x '=' {no, '=', ' = '} (names only) x spec {none, literal, {w}, "
+        "bounds": "one field: expression in {name, call, subscript, string name, method call, nested f-string with fields} x conversion {none,!s,!r,!a} x '=' {no, '=', ' = '} (names and the nested f-string) x spec {none, empty (a bare colon), literal, {w}, "
                   ">{w}, 0{w}d, {w}x, {w}.{p}f, *^{w}, {w}{c}}; two fields with every literal chunk of %r between them; plain f\"...\" and (every third) #[f[...]f]; %d malformed "
                   "f-strings that must be syntax errors" % (LITS, len(MALFORMED)),
         "outside": "field expressions beyond the five listed; '=' on compound expressions (prints Hy source text, differs from Python by design); values outside the boxes",
-        "stubs": ["crosshair.util.getsourcelines wrapper for .hy-defined callees"],
+        "stubs": ["both f-strings are evaluated under crosshair.tracers.NoTracing on the concrete values the boxes forked on (CrossHair's FORMAT_VALUE interception differs from CPython "
+                  "for an empty format spec with a conversion)"],
         "assumptions": ["CPython's own f-string evaluation on text from the independent printer checks/C24.py:field/render is the oracle"],
     }
 
